@@ -165,4 +165,24 @@ def structPreB (b : Block) (n : Net) : Bool :=
 def wfB (pre : Block → Net → Bool) (b : Block) : Bool :=
   b.nets.all fun n => netOldB b n && drvB b n && pre b n
 
+/-! ### the shape of a gadget (what makes the lowered schedule a dependency order) -/
+
+/-- the body nets write the temporaries `t, t+1, …` in order, each reading only arguments of the replaced net or
+    temporaries written before it -/
+def bodyOk (nargs : List Nat) (t : Nat) : List Net → Nat → Bool
+  | [], _ => true
+  | m :: ms, i =>
+    m.dests == [t + i] && m.op.isComb
+      && m.args.all (fun a => nargs.contains a || (decide (t ≤ a) && decide (a < t + i)))
+      && bodyOk nargs t ms (i + 1)
+
+/-- a gadget is `k` body nets followed by the `w` net into the destination of the replaced net -/
+def gadgetShape (n : Net) (t k : Nat) (nets : List Net) : Bool :=
+  match nets.reverse with
+  | last :: revbody =>
+    last.op == .w && last.dests == [n.dest]
+      && last.args.all (fun a => n.args.contains a || (decide (t ≤ a) && decide (a < t + k)))
+      && revbody.length == k && bodyOk n.args t revbody.reverse 0
+  | [] => false
+
 end Pyrtl.LowerNet
